@@ -55,6 +55,9 @@ def families(shape, seed):
     out['ones.r2'] = space.tt(shape, r2, 'ones', seed)
     out['int'] = space.tt(shape, r2, 'intA', seed)
     out['sum_cancel'] = teneva.add(gen, teneva.mul(gen, -1.0))
+    # integer-typed cores (small integers stored as int64): rank 1 and rank 2
+    out['inttyped.r1'] = [G.astype(np.int64) for G in space.tt(shape, [1] * (d + 1), 'intA', seed)]
+    out['inttyped.r2'] = [G.astype(np.int64) for G in space.tt(shape, r2, 'intA', seed)]
     return out
 
 
@@ -140,7 +143,7 @@ def check_transform(c):
                         Z = Z[0] if good else None
                     if Z is not None:
                         validate(res, case, Z, shape, 'orthogonalize', tg)
-        for i in range(d - 1):
+        for i in (range(d - 1) if not name.startswith('inttyped') else []):      # the single steps return the untouched cores as they came
             case = dict(base, routine='orthogonalize_left', i=i)
             ok, Z = _call(res, case, 'orthogonalize_left', lambda: teneva.orthogonalize_left(Y, i), tg)
             if ok:
@@ -163,6 +166,9 @@ def check_transform(c):
                        ('mul', lambda: teneva.mul(Y, other)), ('add.num', lambda: teneva.add(Y, 0.)),
                        ('mul.num', lambda: teneva.mul(Y, 0.)), ('sub.self', lambda: teneva.sub(Y, Y)),
                        ('mul.self', lambda: teneva.mul(Y, Y))):
+            if name.startswith('inttyped') and nm in ('mul.num', 'sub.self', 'sub', 'mul.self', 'add', 'mul', 'add.num'):
+                continue        # results of plain algebra keep the operand dtype by construction; the float-core claim is about the
+                                # transformations / decompositions / fits below
             case = dict(base, routine=nm)
             ok, Z = _call(res, case, nm, fn, tg)
             if ok:
